@@ -161,33 +161,9 @@ func runC11(c *Ctx, ev *Evidence) ([]Violation, error) {
 	ev.Assume("A3: url.Parse is an uninterpreted function of the string (ok, host); the oracle's 'href has a host' uses the same function on the emitted href",
 		"(*Policy).validURL is replaced by an arbitrary verdict and arbitrary normalised value (its behaviour is C03's subject)",
 		"scoping: noopener is required of an <a> that carries an href (the statement's first sentence and the code block are conditioned on an href)")
-	nReach := 0
-	res := dischargeAll(ur.In, ev, ur.Obs, func(ob *sym.Obligation) bool {
-		if ob.Kind == "reach" {
-			nReach++
-			return nReach <= 8
-		}
-		return true
-	}, timeout, grace, "C11")
-	reach := 0
-	var viols []Violation
 	seen := map[string]bool{}
-	nSat := 0
-	for _, r := range res {
-		if r.Ob.Kind == "reach" {
-			if r.Res.Status == smt.Sat {
-				reach++
-			}
-			continue
-		}
-		switch r.Res.Status {
-		case smt.Unknown:
-			ev.Inconclusive(fmt.Sprintf("C11 obligation on path %d undecided: %s", r.Ob.PathID, r.Res.Note))
-			continue
-		case smt.Unsat:
-			continue
-		}
-		nSat++
+	budget := newReplayBudget()
+	viols, reachM, err := c.runUnitObligations(ev, ur, "C11", timeout, grace, func(r UnitResult) (*Violation, error) {
 		// which conjuncts fail in the model
 		var failed []string
 		for k, v := range r.Notes {
@@ -197,8 +173,8 @@ func runC11(c *Ctx, ev *Evidence) ([]Violation, error) {
 		}
 		sort.Strings(failed)
 		sig := "conjunct=" + strings.Join(failed, "+")
-		if seen[sig] && len(viols) > 0 {
-			continue
+		if seen[sig] || !budget.allow(sig) {
+			return nil, nil
 		}
 		// witness refinement: replayable URLs, validURL as identity
 		var extra []*smt.Term
@@ -214,7 +190,7 @@ func runC11(c *Ctx, ev *Evidence) ([]Violation, error) {
 		ev.Query(fmt.Sprintf("C11-refine-p%d", r.Ob.PathID), r2.Res)
 		if r2.Res.Status != smt.Sat {
 			ev.Inconclusive(fmt.Sprintf("C11: counterexample on path %d (failing: %s) has no replayable refinement (%s)", r.Ob.PathID, sig, r2.Res.Status))
-			continue
+			return nil, nil
 		}
 		el := r2.Notes["el"].S
 		opts := int(r2.Notes["opts"].I)
@@ -230,15 +206,17 @@ func runC11(c *Ctx, ev *Evidence) ([]Violation, error) {
 		ev.Sample(map[string]interface{}{"query": "C11 counterexample", "element": el, "options": opts, "in": in, "model_out": want, "native_out": got, "native_oracle": why})
 		if why == "" {
 			ev.Inconclusive(fmt.Sprintf("C11: model on path %d did not reproduce natively: el=%s opts=%d in=%q model-out=%q native-out=%q", r.Ob.PathID, el, opts, in, want, got))
-			continue
+			return nil, nil
 		}
 		ev.AddReplayed(1)
-		if !seen[sig] {
-			seen[sig] = true
-			viols = append(viols, Violation{Sig: "site=link-hardening " + sig, Detail: fmt.Sprintf("<%s> options=%05b in=%q out=%q: %s", el, opts, in, got, why), Replay: []NativeReq{req}})
-		}
+		seen[sig] = true
+		return &Violation{Sig: "site=link-hardening " + sig, Detail: fmt.Sprintf("<%s> options=%05b in=%q out=%q: %s", el, opts, in, got, why), Replay: []NativeReq{req}}, nil
+	})
+	if err != nil {
+		return nil, err
 	}
-	ev.Sample(map[string]interface{}{"query": "C11 obligations", "paths": len(ur.States), "assertions": len(res) - reach, "counterexamples": nSat})
+	reach := reachM["C11-href-survives"]
+	budget.report(ev, "C11")
 	if reach == 0 {
 		ev.Inconclusive("vacuity: no path on which an href survives is satisfiable")
 	}
